@@ -504,6 +504,15 @@ pub fn run(tier: Tier) -> i32 {
     let budget = Budget::new(tier.pick(200.0, 3300.0));
     let coll = Collector::new();
     let (states, transitions, per, samples, complete) = run_bfs_all(tier, &budget, &coll, false);
+    // the sorting network (the largest composite request) over elements whose keys are constants or share
+    // wires: its folding shortcuts must not change what it computes (oracle: sorted permutation; see C13)
+    let net_evals = std::sync::atomic::AtomicU64::new(0);
+    for l in 2..=tier.pick(5usize, 7usize) {
+        crate::props::c13::check_sorter_key_sources(l, &net_evals, &coll);
+    }
+    for l in 2..=tier.pick(3usize, 4usize) {
+        crate::props::c13::check_sorter_two_bit_key_sources(l, &net_evals, &coll);
+    }
     // second half: dedup on/off equivalence over compiled programs
     let (jobs, plan) = c01::family_jobs(tier, &["E-small", "S", "P", "L"]);
     let fr = c01::run_jobs(jobs, c01::attribution_for, &budget, plan);
@@ -523,6 +532,7 @@ pub fn run(tier: Tier) -> i32 {
             "per_search": per,
             "exhaustive": complete && fr.complete,
             "invariants": ["returned wire has the truth table of the literal request", "old gates are a prefix of new gates", "gates refer to earlier wires", "negated pairs are complementary", "build(outputs) validates and evaluates (real eval, all inputs) to the literal truth tables after 161 clear panic bits, for output lists {all wires, each single wire, repeated wire + constant, reversed pair}"],
+            "sorting_network_evaluations_over_constant_and_shared_key_wires": net_evals.load(std::sync::atomic::Ordering::Relaxed),
             "dedup_on_off_programs": fr.counters.get("programs"),
             "dedup_on_off_evaluations": fr.counters.get("evaluations"),
             "dedup_family_plan": fr.plan,
